@@ -18,30 +18,60 @@ pub fn opt_bits(i: usize) -> (bool, bool, bool, bool, bool) {
 }
 
 pub fn decoder_for(i: usize, key: &HMACKey) -> MessageDecoder {
-    decoder_for_alt(i, key, false)
+    decoder_for_mode(i, key, 0)
 }
 
 /// `alt`: the builder is first given a context of complementary options, then the wanted one
 pub fn decoder_for_alt(i: usize, key: &HMACKey, alt: bool) -> MessageDecoder {
+    decoder_for_mode(i, key, if alt { 1 } else { 0 })
+}
+
+/// The same decoder obtained in different ways (all must behave alike):
+///   mode 0  one call per option, one with_context; no context = MessageDecoderBuilder::default().build()
+///   mode 1  a context of complementary options first, then the wanted one (the last with_context
+///           counts); no context = MessageDecoder::default()
+///   mode 2  every option called twice, with_key first with another key and then with the right one
+///           (options are idempotent, the last key counts); no context = a clone of MessageDecoder::default()
+pub fn decoder_for_mode(i: usize, key: &HMACKey, mode: usize) -> MessageDecoder {
     let (ctx, validation, with_key, unknown_data, not_ignore) = opt_bits(i);
     if !ctx {
-        return MessageDecoderBuilder::default().build();
+        return match mode % 3 {
+            0 => MessageDecoderBuilder::default().build(),
+            1 => MessageDecoder::default(),
+            _ => {
+                let d = MessageDecoder::default();
+                d.clone()
+            }
+        };
     }
+    let twice = mode % 3 == 2;
     let mut b = DecoderContextBuilder::default();
     if validation {
         b = b.with_validation();
+        if twice {
+            b = b.with_validation();
+        }
     }
     if with_key {
+        if twice {
+            b = b.with_key(HMACKey::new_short_term("some-other-key").expect("key"));
+        }
         b = b.with_key(key.clone());
     }
     if unknown_data {
         b = b.with_unknown_data();
+        if twice {
+            b = b.with_unknown_data();
+        }
     }
     if not_ignore {
         b = b.not_ignore();
+        if twice {
+            b = b.not_ignore();
+        }
     }
     // the last with_context call is the one that counts
-    if alt {
+    if mode % 3 == 1 {
         let mut c = DecoderContextBuilder::default();
         if !validation {
             c = c.with_validation();
